@@ -428,6 +428,38 @@ def _chunk_class(c):
     return 'divides' if n % cs == 0 else 'partial_last'
 
 
+def replay_hang(c, pos, nproc):
+    """a call hung on a real pool: drive the same call in process (real parent-side code, scripted
+    worker) with the completion order the worker log showed and every position of the length
+    announcement; a logical 'never completes' there is a clock-free witness of the same defect"""
+    from vmon.core import Rec
+    api = base_api(c['api'])
+    if api == 'apply':
+        return None
+    cs = eff_chunk(c)
+    m = expected_parts(c)
+    order = []
+    for p_ in reversed(pos):                  # a part is complete when its last item was logged
+        part = p_ // cs if cs > 0 else 0
+        if part not in order and part < m:
+            order.append(part)
+    order.reverse()
+    order += [i for i in range(m) if i not in order]
+    c2 = dict(c, api=api, lat=None)
+    try:
+        bench = Bench(nproc)
+        for L in range(m + 1):
+            scratch = Rec()
+            run_perm_case(bench, scratch, c2, order, L, 'lazy')
+            bad = [v for v in scratch.violations if v['kind'] in LOGICAL_STUCK]
+            if bad:
+                return {'completion_order': order, 'length_announced_after': L,
+                        'kind_in_process': bad[0]['kind'], 'detail': bad[0]['detail']}
+    except Exception:                            # noqa
+        return None
+    return None
+
+
 def run_real(spec, rec):
     from vmon import real
     H.REFERENCE = True
@@ -494,6 +526,16 @@ def run_real(spec, rec):
             if c.get('chunk') is None:
                 rec.count('real:default_chunk')
             orders.add((api, tuple(pos)))
+        if results[cid] and results[cid][0] == 'hung':
+            w = replay_hang(c, pos, p['nproc'])
+            rec.count('real:hung_calls')
+            if w is not None:
+                # reproduced logically: no clock-based verdict needed for this one
+                rec.violation('call_hangs_and_replays_in_process',
+                              {'lane': 'real', 'api': api, 'chunked': eff_chunk(c) > 1},
+                              call=c, waited_s=results[cid][1:], completion_order_seen=pos[:60],
+                              in_process_replay=w, nproc=p['nproc'])
+                continue
         ok = judge(rec, c, results[cid], 'real', extra={'completion_order': pos[:60], 'nproc': p['nproc']})
         if api != 'apply' and c['n'] >= 2:
             rec.sig([api, _chunk_class(c), _n_class(c['n']), 'nolen' if c.get('form') in ('gen', 'iter', 'nolen') else 'len',
@@ -521,6 +563,37 @@ class _RS:
 
 
 STUCK_S = 25.0     # an in-memory consumer that does not come back within this is stuck
+
+
+class _WouldBlock(BaseException):
+    """raised through a chunked-imap generator when its result handle has nothing to give"""
+
+
+def make_nonblocking(under):
+    """harness wrapper on ONE result handle (instance-level class swap): the generator returned by a
+    chunked imap pulls from it with next() and would block for ever on a lost part; this turns 'would
+    block' into an exception, so that 'every part delivered and announced, yet nothing to yield' is
+    decided logically instead of by a clock"""
+    cls = under.__class__
+    if not hasattr(cls, 'next'):
+        return False
+
+    def nb_next(self):
+        try:
+            return cls.next(self, 0)
+        except Exception as e:                  # noqa
+            if type(e).__name__ == 'TimeoutError' and not getattr(e, 'args', None):
+                raise _WouldBlock()
+            raise
+    try:
+        under.__class__ = type('NB' + cls.__name__, (cls,), {'__next__': nb_next})
+    except TypeError:
+        return False
+    return True
+
+
+LOGICAL_STUCK = ('iterator_never_completes', 'job_never_resolves', 'task_stream_never_ends',
+                 'iterator_stopped_early')
 
 
 class AbortSpec(Exception):
@@ -662,6 +735,9 @@ class PJob:
         new = set(pool._cache) - before
         self.job = new.pop() if len(new) == 1 else getattr(self.h, '_job', None)
         self.pollable = hasattr(self.h, 'next')
+        self.under = None
+        if not self.pollable and self.api.startswith('imap') and self.job is not None:
+            self.under = pool._cache.get(self.job)      # the handle behind a chunked-imap generator
         if consumer == 'thread':
             self.thread = threading.Thread(target=self._consume_blocking, daemon=True)
             self.thread.start()
@@ -734,6 +810,18 @@ class PJob:
                 if r == 'empty':
                     return ['items', self.yielded, 'incomplete']
             return ['items', self.yielded, 'overrun']
+        if self.under is not None and make_nonblocking(self.under):
+            limit = self.c['n'] + 3
+            try:
+                while len(self.yielded) <= limit:
+                    if self._one(lambda: next(self.h)) == 'stop':
+                        if self._one(lambda: next(self.h)) != 'stop':
+                            return ['items', self.yielded, 'restarted']
+                        return ['items', self.yielded, 'stop']
+                return ['items', self.yielded, 'overrun']
+            except _WouldBlock:
+                return ['items', self.yielded, 'incomplete']
+        rec.missing('non-blocking wrapper on the handle behind a chunked imap (clock-based guard used instead)')
         st, res = self.b.guard.run(lambda: H.drain_iterator(self.h, 'for', self.c['n'] + 3), STUCK_S)
         if st == 'stuck':
             self.b.stuck += 1
